@@ -244,7 +244,7 @@ impl ReuseOracle {
                 }
                 // an evicted callee whose own dependencies changed reports "changed" without
                 // being recomputed (its old value is gone, so it cannot be compared)
-                if self.modes.lru && self.lru.evicted.contains(lk) && !c.untracked {
+                if ((self.modes.lru && self.lru.evicted.contains(lk)) || (!self.modes.lru && c.kind == Kind::Lru)) && !c.untracked {
                     let tc = c.validated_at;
                     if c.reads.iter().any(|r| self.changed_since(r, tc)) {
                         return true;
@@ -728,6 +728,15 @@ impl Oracle for ReuseOracle {
             }
         }
         self.lru.relax = info.kind == "accumulated";
+        if self.modes.lru && self.lru.relax {
+            // accumulated() fetches the root first (it was requested by the preceding step, so it
+            // is valid), then refreshes the memos of the transitive callees
+            if let Some((n, a)) = info.node {
+                if self.prog.nodes[n].kind == Kind::Lru {
+                    self.lru_fetch(LKey::Node(n, if self.prog.nodes[n].kind.is_multi() { a } else { 0 }), step, out);
+                }
+            }
+        }
         self.process(db, step, evs, out);
         if self.modes.lru {
             if let Some((k, _)) = self.lru.pending_fetch.take() {
@@ -736,7 +745,7 @@ impl Oracle for ReuseOracle {
                     out.viol("lru_evicted_executed_without_request", step, format!("evicted {k:?} was recomputed although the step requested {:?}", info.node));
                 }
             }
-            if let (Some((n, _)), true) = (info.node, info.ok) {
+            if let (Some((n, _)), true, false) = (info.node, info.ok, self.lru.relax) {
                 if self.prog.nodes[n].kind == Kind::Lru {
                     self.lru_fetch(LKey::Node(n, 0), step, out);
                 }
